@@ -103,6 +103,23 @@ def specBuild (cfg : Config) (core : Graph) (out : List Canon) : Bool :=
 
 def canonOfGraph (g : Graph) : Canon := { nodes := g.nodes, edges := canonEdges g }
 
+/-- remove one occurrence of `x` (compared by rendering); `none` = not there -/
+def takeOut (x : List String × List (List Int)) :
+    List (List String × List (List Int)) → Option (List (List String × List (List Int)))
+  | [] => none
+  | y :: ys => if toString y == toString x then some ys else (takeOut x ys).map (y :: ·)
+
+/-- conservation at the `iter(Proxy)` level on a list of canonical samples (any order) against the traced
+    model enumeration: the symbol multisets of all samples are those of the traces; every trace whose
+    `build_graphs` result satisfies the side condition `sideOk` (no parallel bonds to collapse) is matched by a
+    distinct sample with exactly its symbols and bond labels -/
+def specIter (rs : List (Graph × Graph × Trace)) (out : List Canon) : Bool :=
+  let sigs := out.map sigOfCanon
+  let symLe : List String → List String → Bool := fun a b => decide (toString a ≤ toString b)
+  ((sigs.map (·.1)).mergeSort symLe == (rs.map fun (r : Graph × Graph × Trace) => (sigOfTrace r.2.2).1).mergeSort symLe) &&
+  ((rs.filter fun (r : Graph × Graph × Trace) => sideOk r.1).foldl (fun (acc : Option (List (List String × List (List Int)))) (r : Graph × Graph × Trace) =>
+      acc.bind (takeOut (sigOfTrace r.2.2))) (some sigs)).isSome
+
 def refTable (t : List (String × String × List (String × List Nat × List (List String)))) : RefConfig :=
   t.map fun g => (g.1, g.2.2.map (·.2.2))
 
@@ -153,6 +170,7 @@ def handle : List SExp → Option SExp
       let cores ← asList asGraph cores
       let aam ← asBool aam
       let res := generate cfg fuelMax aam cores
+      let resT := generateT cfg fuelMax aam cores
       let model := match res with
         | .ok gs => .list (sortByRender (gs.map canonGraph))
         | .error e => ofErr e
@@ -165,11 +183,21 @@ def handle : List SExp → Option SExp
             | .ok _ => false))
         | [impl] => do
             let out ← asList asCanon impl
-            pure (ofBool (match res with
-              | .ok _ => out.length == totalExp cfg cores && out.all okOne
-              | .error _ => false))
+            pure (ofBool (match res, resT with
+              | .ok _, .ok rs => out.length == totalExp cfg cores && out.all okOne && specIter rs out
+              | _, _ => false))
         | _ => pure none'
-      pure (.list [.atom "ok", model, ofBool true, specImpl, ofNat (totalExp cfg cores)])
+      -- the traced enumeration: projection = plain enumeration; every sample conserved (symbols always, bonds
+      -- under the side condition); the model's own samples pass the check applied to the implementation's
+      let specModel := match res, resT with
+        | .ok gs, .ok rs => rs.map (·.2.1.nodes) == gs.map (·.nodes) && rs.all conservedIterB &&
+            specIter rs (gs.map canonOfGraph)
+        | .error _, .error _ => true
+        | _, _ => false
+      let nRes := match resT with | .ok rs => rs.length | .error _ => 0
+      let nSideFail := match resT with | .ok rs => (rs.filter fun r => !sideOk r.1).length | .error _ => 0
+      pure (.list [.atom "ok", model, ofBool specModel, specImpl, ofNat (totalExp cfg cores),
+                   ofNat nRes, ofNat nSideFail])
   -- the generated table of a shipped collection against the configuration the harness extracted
   | .atom "table" :: .atom which :: cfg :: cores :: _ => do
       let cfg ← asConfig cfg
